@@ -12,7 +12,7 @@ frames N { frame TY UPS {ECUPS}*NEC GSHIFT HAVECROP X0 Y0 W H BMODE BALPHA BCLAM
            tr K { rct B T | pal B N NBC NBD DP | sq N {H INPL B N}*N }*K
            pals K { W H data*(W*H) }*K
            tree <preorder: D PROP VAL | L CTX PRED OFF MUL>
-           coded 0|1
+           coded 0|1 [ent 0..4]
            chans K { W H data*(W*H) }*K }*N
 ```
 Answer: `ok <hex> nframes N { paths.. ; numGroups ; K { W H data } }` or `invalid <why>`.
@@ -152,12 +152,18 @@ def framePlan (nec : Nat) : P FramePlan := do
   let t ← tree
   kw "coded"
   let coded ← bool
+  -- optional: `ent N` (entropy coding mode, default 0)
+  let ent ← (do
+    let st ← get
+    match st with
+    | "ent" :: _ => do let _ ← tok; nat
+    | _ => pure 0)
   kw "chans"
   let nc ← nat
   let chans ← rep nc chan
   pure { hdr := { ty, upsampling := ups, ecUpsampling := ecups, groupShift := gshift, haveCrop, x0, y0, w, h,
                   blend := b, ecBlend := ecb, duration := dur, isLast, saveAsRef := saveRef, saveBeforeCt := sbct, gab, epfIters := epf },
-         chans, transforms := ts, pals, tree := t, wp, coded }
+         chans, transforms := ts, pals, tree := t, wp, coded, ent }
 
 def plan : P (ImgHdr × List FramePlan) := do
   let img ← imgHdr
@@ -181,7 +187,7 @@ def run (ws : List String) : String :=
         let outs := outs.map (·.getD default)
         let bytes := (writeImageHeader img).toBytes ++ outs.flatMap (·.bytes)
         let frames := outs.map fun o =>
-          s!"frame {o.numGroups} {o.paths.length} " ++ " ".intercalate o.paths ++
+          s!"frame {o.numGroups} {o.paths.length + 1} ent{o.entUsed} " ++ " ".intercalate o.paths ++
           s!" {o.expected.length} " ++ " ".intercalate (o.expected.map showChan) ++
           (match o.modelDecoded with
            | none => " model none"
